@@ -175,6 +175,29 @@ func (w *World) Journal() []Op {
 	return append([]Op{}, w.journal...)
 }
 
+// SyncAll makes everything written so far durable (a `sync` after one-time initialisation).
+func (w *World) SyncAll() {
+	w.mu.Lock()
+	var paths []string
+	for p, n := range w.files {
+		if !n.dir && n.synced < len(n.data) {
+			paths = append(paths, p)
+		}
+	}
+	w.mu.Unlock()
+	sort.Strings(paths)
+	for _, p := range paths {
+		if err := w.record(Op{Kind: "fsync", Target: p}); err != nil {
+			return
+		}
+		w.mu.Lock()
+		if n, ok := w.files[p]; ok {
+			n.synced = len(n.data)
+		}
+		w.mu.Unlock()
+	}
+}
+
 // Note journals an external event (an ABCI call, a marker) so that it is a crash point too.
 func (w *World) Note(what string) { _ = w.record(Op{Kind: "note", Target: what}) }
 
